@@ -88,7 +88,7 @@ impl Gen<'_> {
 
     fn cmd(&mut self, depth: u32, nested: bool) -> Cmd {
         let mut c = Cmd { lines: vec![], tags: vec![], out: String::new(), heredoc: false, continuation: false, subst_tags: vec![] };
-        let top = if depth >= 2 { 6 } else { 45 };
+        let top = if depth >= 2 { 6 } else { 47 };
         match self.rng.below(top) {
             0..=2 => {
                 let (l, t) = self.probe_line();
@@ -421,6 +421,19 @@ impl Gen<'_> {
                 c.out = "3\n".into();
                 c.continuation = true;
             }
+            45 if !nested => {
+                // the delivered program changes the positional parameters it was given
+                let i = self.id();
+                c.lines.push("shift".to_string());
+                c.lines.push(format!("probe p{i} $LINENO \"$#\" \"$1\""));
+                c.tags.push(format!("p{i}"));
+            }
+            46 if !nested => {
+                let i = self.id();
+                c.lines.push(format!("set -- n{i} \"$@\""));
+                c.lines.push(format!("probe p{i} $LINENO \"$#\" \"$2\""));
+                c.tags.push(format!("p{i}"));
+            }
             44 => {
                 // a function whose definition carries a redirection, defined and called
                 let i = self.id();
@@ -460,7 +473,7 @@ fn normalise(cmds: Vec<Cmd>) -> Vec<Cmd> {
         let is_status_pair = c.lines.len() == 2 && c.lines[0].starts_with("simexit ");
         let is_subst_pair = c.lines.len() == 4 && c.lines[0].starts_with('x') && c.lines[0].ends_with("=$(");
         let is_two_plus_probe = c.lines.len() == 3 && (c.lines[0].starts_with("arr") || (c.lines[0].starts_with('v') && c.lines[0].contains("=${UNSET_C15"))) && c.lines[2].starts_with("probe ");
-        let is_alias_pair = c.lines.len() == 2 && c.lines[0].starts_with("alias ");
+        let is_alias_pair = c.lines.len() == 2 && (c.lines[0].starts_with("alias ") || c.lines[0] == "shift" || c.lines[0].starts_with("set -- "));
         if is_status_pair || is_alias_pair {
             out.push(Cmd { lines: vec![c.lines[0].clone()], tags: vec![], out: String::new(), heredoc: false, continuation: false, subst_tags: vec![] });
             out.push(Cmd { lines: vec![c.lines[1].clone()], tags: c.tags.clone(), out: String::new(), heredoc: false, continuation: false, subst_tags: vec![] });
@@ -526,6 +539,11 @@ pub const EVALS: &[&str] = &[
     "[[ xyz =~ ^xyz$ ]]",
     "case abc in A*) true ;; *) false ;; esac",
     "x=ABC; [[ ${x/abc/z} == z ]]",
+    // the same text as an arithmetic expression (no tilde expansion) and as a word (with it)
+    "[[ $((~0)) == -1 ]]",
+    "v=~0; [[ \"$v\" != '~0' ]]",
+    "[[ $((~+1)) == -2 ]]",
+    "v=~+; [[ \"$v\" != '~+' ]]",
 ];
 pub const ARITH: &[&str] = &["1+2", "x=3", "a?b:c", "x++ + ++y", "(1+2)*3", "1 +", "2**3", "a[1]", "x<<=2", "!a && b"];
 
